@@ -613,6 +613,8 @@ def check_case(ctx, case, tags=(), record=True):
             problems += _model_segment(ctx, case, seg_start, msteps + [("L", [], None)], "E", tags)
         else:
             problems += _model_segment(ctx, case, seg_start, msteps, cur, tags)
+    if len(PENDING) > 3000:
+        problems += flush(ctx)
     if record:
         nontrivial = any(s[0] != "layer" or s[1] is not None or s[2] is not None for s in steps) and \
             units(cur) != units(lm0)
